@@ -4,10 +4,10 @@ Only one analysis-stage decision is within reach of the MIR->SMT engine so far: 
 decides whether a quantity's `=` scaling lock deserves the "Unnecessary scaling lock modifier" warning.
 A well-formed recipe must produce no warning; a lock on a cookware/timer quantity or on a text value must.
 """
-import os, json
+import os, json, re
 import scratch, native, mcheck, mir, smt, models
 import c08
-from mir import SV, Agg, Enum, Opaque, OpenAgg
+from mir import SV, Agg, Enum, Opaque, OpenAgg, VecVal
 
 
 def m_part(run, scr, nat):
@@ -60,6 +60,14 @@ def m_part(run, scr, nat):
         error_branch_part(run, c.ms, nat)
     except mir.Unsupported as e:
         run.inconclusive.append("encoder (parse_events Error branch): %s" % e)
+    try:
+        fraction_part(run, scr, c.ms, nat)
+    except mir.Unsupported as e:
+        run.inconclusive.append("encoder (fraction kernels): %s" % e)
+    try:
+        range_part(run, scr, c.ms, nat)
+    except mir.Unsupported as e:
+        run.inconclusive.append("encoder (range_value): %s" % e)
     c.ms.close()
 
 
@@ -212,6 +220,232 @@ def error_branch_part(run, ms, nat):
     batch.run()
 
 
+def fraction_part(run, scr, ms, nat):
+    """parser kernels `frac` / `mixed_num` (quantity values `a/b`, `i a/b`): a zero denominator is a parse error, never a number"""
+    import analysis
+    dump, decls = analysis.load_mir_dbg(run, scr, ms)
+    run.functions.append("parser::quantity::{int, frac, mixed_num} (MIR with debug assertions; token text -> u32 parsing abstract)")
+    tkf = decls.structs.lookup("Token", "parser::token_stream")
+    knames = [v for v, _ in decls.enums["TokenKind"]]
+    nn = [v for v, _ in decls.enums["Number"]]
+    fr = dict(decls.enums["Number"])["Fraction"]
+    for fname, ntok in (("frac", 2), ("mixed_num", 3)):
+        w = analysis.World(dump, decls, "f%d" % ntok, max_paths=20000)
+        it, sem = w.it, w.sem
+        it.abstract_fns += [r"^BlockParser::<'_, '_>::token_str$"]
+        toks = []
+        for j in range(ntok):
+            t = Agg("Token", {str(tkf.index("kind")): Enum("TokenKind", SV("isize", str(knames.index("Int"))), {n: Agg("TokenKind::" + n, {}) for n in knames}, knames),
+                              str(tkf.index("span")): Opaque("span of token %d" % j)})
+            t.ok = sem.sym_int("tok%d_parses" % j, "isize", 0, 1)
+            t.val = sem.sym_int("tok%d_value" % j, "u32", 0, 2 ** 32 - 1)
+            toks.append(t)
+
+        def m_parse_u32(it_, a, c_, toks=toks):
+            src = a[0]
+            hit = [t for t in toks if isinstance(src, Opaque) and src.args and src.args[-1] is t]
+            if not hit:
+                raise mir.Unsupported("parse::<u32> of %r" % (src,))
+            t = hit[0]
+            return Enum("Result", SV("isize", "(- 1 %s)" % t.ok), {"Ok": Agg("Result::Ok", {"0": SV("u32", t.val)}), "Err": Agg("Result::Err", {"0": Opaque("ParseIntError")})}, ["Ok", "Err"])
+
+        def m_map_err(it_, a, c_):
+            r = a[0]
+            res = []
+            for var, payload in (("Ok", None), ("Err", None)):
+                pass
+            d = r.discr.expr
+            out = [(["(= %s 0)" % d], it_._mk_enum("Result", "Ok", [r.variants["Ok"].fields["0"]]), "return", None)]
+            for pc2, env2, acc in it_.run_closure_seq(a[1], [r.variants["Err"].fields["0"]]):
+                kind, val = acc[0]
+                out.append((["(= %s 1)" % d] + pc2, it_._mk_enum("Result", "Err", [val]), "return", None, {"env": env2}) if kind == "return"
+                           else (["(= %s 1)" % d] + pc2, None, "panic", val))
+            return out
+        mine = {r"^core::str::<impl str>::parse::<u32>$": m_parse_u32, r"^Result::<u32, ParseIntError>::map_err::<": m_map_err}
+        mine.update({k_: v_ for k_, v_ in it.models.items() if k_ not in mine})
+        it.models = mine
+        f = dump.find(r"^%s$" % fname)
+        outs = it.run(f, toks + [Opaque("the block parser")])
+        items = []
+        all_ok = "(and %s)" % " ".join("(= %s 1)" % t.ok for t in toks)
+        den = toks[-1]
+        n_ok = n_zero = 0
+        for o in outs:
+            p = ">".join(o.trace[-2:])
+            pcs = mcheck.pc_assert(o.pc)
+            if o.kind == "panic":
+                items.append(("%s never panics on integer tokens: %s" % (fname, str(o.msg)[:40]), pcs, "unsat"))
+                continue
+            if o.kind != "return":
+                continue
+            if "Ok" in o.value.variants:
+                n_ok += 1
+                num = o.value.variants["Ok"].fields["0"]
+                fx = num.variants.get("Fraction") if isinstance(num, Enum) else None
+                good = "false"
+                if fx is not None:
+                    g = lambda n: fx.fields[str(fr.index(n))].expr
+                    whole = "(= %s %s)" % (g("whole"), toks[0].val if ntok == 3 else "0")
+                    good = "(and %s (not (= %s 0)) %s (= %s %s) (= %s %s) (= %s 0.0))" % (all_ok, den.val, whole, g("num"), toks[-2].val, g("den"), den.val, g("err"))
+                items.append(("%s path[%s]: a number comes back only when every token parses and the denominator is not zero, and it is the exact "
+                              "fraction written" % (fname, p), pcs + ["(not %s)" % good], "unsat"))
+            else:
+                err = o.value.variants["Err"].fields["0"]
+                while isinstance(err, Opaque) and err.what == "converted error" and err.args:
+                    err = err.args[0]         # `?` converts through `From<SourceDiag> for SourceDiag`, the identity
+                info = w.diag_info(err) if isinstance(err, Agg) else dict(severity=None, stage=None, message="")
+                if "Division by zero" in info["message"]:
+                    n_zero += 1
+                    items.append(("%s path[%s]: 'Division by zero' is a parse-stage error raised exactly for a zero denominator" % (fname, p),
+                                  pcs + ["(not (and (= %s 0) %s))" % (den.val, "true" if (info["severity"] == "Error" and info["stage"] == "Parse") else "false")], "unsat"))
+                else:
+                    items.append(("%s path[%s]: any other refusal means a token did not parse as an integer" % (fname, p), pcs + [all_ok], "unsat"))
+        if n_ok == 0 or n_zero == 0:
+            run.inconclusive.append("%s: expected a success path and a division-by-zero path, found %d / %d" % (fname, n_ok, n_zero))
+
+        def on_sat(name):
+            def cb(model, ob, item):
+                bad = judge_fractions(nat)
+                if bad:
+                    run.violation("kernel=parser::quantity fraction", "; ".join(bad[:2])[:600], dict(engine="mir-smt", replay="fractions"))
+                    ob["status"] = "violated"
+                else:
+                    run.inconclusive.append("C07 %s: candidate does not reproduce through the public parser" % name[:80])
+            return cb
+        b = mcheck.Batch(ms, "c07-%s" % fname, list(sem.decls), timeout_s=60)
+        for name, asserts, expect in items:
+            b.add(name, asserts, expect, (), on_sat(name))
+        b.run()
+
+
+def range_part(run, scr, ms, nat):
+    """parser kernel `range_value` (`a-b`): an error in either bound is THE result (never swallowed into "not a range"), and a
+    range comes back only from two numbers"""
+    import analysis
+    dump, decls = analysis.load_mir_dbg(run, scr, ms)
+    run.functions.append("parser::quantity::range_value (MIR with debug assertions; numeric_value and the extension test abstract)")
+    tkf = decls.structs.lookup("Token", "parser::token_stream")
+    knames = [v for v, _ in decls.enums["TokenKind"]]
+    vnames = [v for v, _ in decls.enums.lookup("Value", "quantity")]
+    w = analysis.World(dump, decls, "rv", max_paths=20000)
+    it, sem = w.it, w.sem
+    it.abstract_fns += [r"^numeric_value$", r"^BlockParser::<'_, '_>::extension$"]
+    allowed = [knames.index(x) for x in ("Int", "Minus", "Whitespace", "Slash")]
+    toks = []
+    for j in range(3):
+        kd = sem.sym_int("rk%d" % j, "isize", 0, len(knames) - 1)
+        sem.decls.append("(assert (or %s))" % " ".join("(= rk%d %d)" % (j, a) for a in allowed))
+        toks.append(Agg("Token", {str(tkf.index("kind")): Enum("TokenKind", SV("isize", kd), {n: Agg("TokenKind::" + n, {}) for n in knames}, knames),
+                                  str(tkf.index("span")): Opaque("span of token %d" % j)}))
+    f = dump.find(r"^range_value$")
+    outs = it.run(f, [VecVal(toks), Opaque("the block parser")])
+    items = []
+    n_ok = n_err = 0
+    has_dash = "(or %s)" % " ".join("(= rk%d %d)" % (j, knames.index("Minus")) for j in range(3))
+    for o in outs:
+        p = ">".join(o.trace[-2:])
+        pcs = mcheck.pc_assert(o.pc)
+        if o.kind == "panic":
+            items.append(("range_value never panics (`unreachable!` for a non-number from numeric_value is that function's contract): %s" % str(o.msg)[:40],
+                          pcs + [nv_contract(it, vnames)], "unsat"))
+            continue
+        if o.kind != "return":
+            continue
+        # the abstract results of the numeric_value calls made on this path, in call order, with their lazily created shape
+        calls = [r0 for c0, a0, r0 in it.__dict__.get("_uf_calls", []) if c0 == "numeric_value"]
+        shapes = []
+        for r0 in calls:
+            e_opt = it.__dict__.get("_lazy_enums", {}).get(id(r0), (None, None))[1]
+            e_res = None
+            if e_opt is not None:
+                inner = e_opt.variants["Some"].fields["0"]
+                e_res = it.__dict__.get("_lazy_enums", {}).get(id(inner), (None, None))[1]
+            shapes.append((e_opt, e_res))
+        res = o.value
+        # which of the bound results this path looked at is decided by its path condition; the claims quantify over all of them
+        used = [(eo, er) for eo, er in shapes if eo is not None and any(eo.discr.expr in c for c in o.pc)]
+        is_none = isinstance(res, Enum) and res.discr.expr == "0"
+        if is_none:
+            ok = c08.conj([]) if False else "true"
+            # "not a range": no extension, no dash, or a bound that is not numeric at all - never a bound that is an ERROR
+            bad = ["(and (= %s 1) (= %s 1))" % (eo.discr.expr, er.discr.expr) for eo, er in used if er is not None]
+            items.append(("range_value path[%s]: 'not a range' is never the answer when a bound is a numeric ERROR (e.g. a zero denominator)" % p,
+                          pcs + ["(or false %s)" % " ".join(bad)], "unsat"))
+            continue
+        inner = res.variants["Some"].fields["0"] if isinstance(res, Enum) and "Some" in res.variants else None
+        if isinstance(inner, Enum) and inner.ty == "Result" and re.match(r"^\d+$", inner.discr.expr):
+            if inner.discr.expr == "1":
+                n_err += 1
+                payload = inner.variants["Err"].fields["0"]
+                from_bound = any(er is not None and er.variants["Err"].fields["0"] is payload for eo, er in used)
+                items.append(("range_value path[%s]: an error result is the error of one of its bounds" % p, pcs + ["true" if not from_bound else "false"], "unsat"))
+            else:
+                n_ok += 1
+                v = inner.variants["Ok"].fields["0"]
+                both = len(used) == 2 and all(er is not None for eo, er in used)
+                cond = "false"
+                if both and isinstance(v, Enum) and "Range" in v.variants:
+                    cond = c08.conj(["(= %s 1)" % eo.discr.expr for eo, er in used] + ["(= %s 0)" % er.discr.expr for eo, er in used] + [has_dash])
+                items.append(("range_value path[%s]: a range comes back only from a dash with a numeric value on either side" % p, pcs + ["(not %s)" % cond], "unsat"))
+        else:
+            items.append(("range_value path[%s]: the result is None, an error or a value" % p, pcs, "unsat"))
+    if n_ok == 0 or n_err == 0:
+        run.inconclusive.append("range_value: expected range and error paths, found %d / %d" % (n_ok, n_err))
+
+    def on_sat(name):
+        def cb(model, ob, item):
+            bad = judge_fractions(nat)
+            if bad:
+                run.violation("kernel=parser::quantity range", "; ".join(bad[:2])[:600], dict(engine="mir-smt", replay="fractions"))
+                ob["status"] = "violated"
+            else:
+                run.inconclusive.append("C07 %s: candidate does not reproduce through the public parser" % name[:80])
+        return cb
+    b = mcheck.Batch(ms, "c07-range", list(sem.decls), timeout_s=60)
+    for name, asserts, expect in items:
+        b.add(name, asserts, expect, (), on_sat(name))
+    b.run()
+
+
+def nv_contract(it, vnames):
+    """numeric_value's contract as range_value uses it: an Ok result is a Number (decided with the fraction kernels / float parsing)"""
+    conds = []
+    for c0, a0, r0 in it.__dict__.get("_uf_calls", []):
+        if c0 != "numeric_value":
+            continue
+        e_opt = it.__dict__.get("_lazy_enums", {}).get(id(r0), (None, None))[1]
+        if e_opt is None:
+            continue
+        e_res = it.__dict__.get("_lazy_enums", {}).get(id(e_opt.variants["Some"].fields["0"]), (None, None))[1]
+        if e_res is None:
+            continue
+        e_val = it.__dict__.get("_lazy_enums", {}).get(id(e_res.variants["Ok"].fields["0"]), (None, None))[1]
+        if e_val is not None:
+            conds.append("(= %s %d)" % (e_val.discr.expr, vnames.index("Number")))
+    return c08.conj(conds)
+
+
+FRACTION_CASES = [
+    # (text, a "Division by zero" error expected?)
+    ("@flour{1/2%cup}\\n", False), ("@flour{1 1/2%cup}\\n", False), ("@flour{1/0%cup}\\n", True), ("@flour{1 1/0%cup}\\n", True),
+    ("#bowl{2 3/0}\\n", True), ("~{1 1/0%min}\\n", True), ("@x{0 1/2}\\n", False),
+    ("@x{1-1/0%cup}\\n", True), ("@x{1/0-2%cup}\\n", True), ("@x{1/2-3/4%cup}\\n", False),
+]
+
+
+def judge_fractions(nat, profile="debug"):
+    bad = []
+    for text, want in FRACTION_CASES:
+        r = nat.call("parse_report", "extended", text, profile=profile)
+        if "error" in r or r.get("panic"):
+            bad.append("%r: parse failed %s" % (text, r))
+            continue
+        got = any("Division by zero" in e for e in r.get("errors", []))
+        if got != want or (want and r.get("has_output")):
+            bad.append("%r: division-by-zero error %s (output: %s), expected %s" % (text, "reported" if got else "not reported", r.get("has_output"), "one and no output" if want else "none"))
+    return bad
+
+
 SHORT_CASES = [
     # an analysis-stage warning / error before a parse error: only parse-stage diagnostics may remain, and there is no output
     "#pot{=1}\\n\\n@{}\\n",
@@ -294,6 +528,10 @@ def check(run):
         # diagnostics built by the component handlers: stage, severity, when they are raised, where the primary label sits
         import analysis
         analysis.run_for(run, scr, nat, "C07")
+    bad = judge_fractions(nat)
+    run.traces_validated += len(FRACTION_CASES)
+    if bad and not run.violations:
+        run.violation("validation-vector fractions", "; ".join(bad[:2])[:600], dict(engine="validation-vector", replay="fractions"))
     bad = judge_short_circuit(nat)
     run.traces_validated += len(SHORT_CASES)
     if bad and not run.violations:
@@ -312,7 +550,7 @@ def replay(run, path):
     nat = native.Native(scr)
     nat.build()
     import analysis
-    bad = judge(nat) + judge_short_circuit(nat) + analysis.judge_structure(nat)
+    bad = judge(nat) + judge_short_circuit(nat) + judge_fractions(nat) + analysis.judge_structure(nat)
     print("replay:", bad)
     if bad:
         print("VIOLATION property=C07 replay=%s" % path)
